@@ -202,7 +202,7 @@ def gen_server_script(rng):
                                     'lose_timeout', 'ack_after_timeout',
                                     'ack_other_ns']),
                         gen.gen_args(rng, True, 2, maxn=3), t])
-        elif r < 0.975:
+        elif r < 0.96:
             ops.append(['rooms', sid(), rng.choice(pool)])
         else:
             s = sid()
@@ -210,11 +210,17 @@ def gen_server_script(rng):
             ops.append(rng.choice([
                 ['save_session', s, ns, {'v': tok[0]}],
                 ['get_session', s, ns],
+                ['get_session_mutate', s, ns, 'm%d' % tok[0], tok[0]],
+                ['get_session_mutate', s, ns, 'm', tok[0]],
                 ['session_block', s, ns, {'k': tok[0]}],
                 ['is_connected', s, ns]]))
     # handler faults: a few handler invocations raise
     if rng.random() < 0.35:
         cfg['faults'] = sorted(rng.sample(range(0, 40), rng.randint(1, 3)))
+    if rng.random() < 0.25 and cfg['coroutines']:
+        # disconnect handlers that tell a room (two emits) that the client
+        # left: per-peer packet order is part of what both servers do alike
+        cfg['disconnect_emits'] = ROOMS[0]
     if rng.random() < 0.25:
         # failing disconnect handlers (rare among all handler invocations:
         # aimed at separately); behaviours of the first few invocations
